@@ -110,6 +110,9 @@ func gItem(o Op) string {
 func gCase(ops []Op, roundStart, roundEnd int) string {
 	var items []string
 	for i := 0; i < len(ops); i++ {
+		if i == roundStart && roundEnd == roundStart {
+			items = append(items, "IClose []") // nothing to deliver
+		}
 		if i == roundStart && roundEnd > roundStart {
 			var r []string
 			for _, o := range ops[roundStart:roundEnd] {
